@@ -193,6 +193,7 @@ class Driver:
         self.groups: dict[str, dict[str, dict]] = {}  # watchdog name -> '+' / '-' -> key -> value
         self.dirty = False
         self.comparisons = 0
+        self.configured: list = []
 
     # ---- routes
 
@@ -293,6 +294,10 @@ class Driver:
             raise RuntimeError('harness: announce_route matched no neighbor')
         self.note_announce(key, a, nh)
         self.intended[key] = value
+        if self.window == 0:
+            # announced before anything was sent: these stand for the routes of the configuration file (Neighbor.routes),
+            # which enter the Adj-RIB-Out the same way and are handed to replace_restart at every establishment
+            self.configured.append(resolved)
 
     def op_announce_wd(self, p, a, nh, pid, label, w, withdrawn) -> None:
         route = self.parse(self.announce_text(p, a, nh, pid, label, WATCHDOGS[w], bool(withdrawn)), 'announce')
@@ -364,6 +369,21 @@ class Driver:
         self.classes.add('clear')
         self.window_withdrawn.update(self.attr_sets)
         self.intended.clear()
+
+    def op_session_loss(self) -> None:
+        """(used by C11's rib-histories engine, never drawn for C04) the session is lost and established again: Peer._reset ->
+        Neighbor.reset_rib -> RIB.reset, the open update generator dies with the Protocol, the remote forgets everything; at the next
+        establishment Peer._main calls replace_restart(previous, configured routes) and the first generator runs without withdraws"""
+        self.generator = None
+        self.call('reset', self.neighbor.rib.reset)
+        self.model.table.clear()
+        self.call('replace_restart', self.rib.replace_restart, [], list(self.configured))
+        self.include_withdraw = False
+        self.superseded.clear()
+        self.dropped_withdraws.clear()
+        self.window_withdrawn = set()
+        self.classes.add('session-loss')
+        self.dirty = True
 
     # ---- transmission
 
@@ -544,6 +564,11 @@ def check(case: dict) -> dict:
             d.op_resend(*args)
         elif name == 'clear':
             d.op_clear()
+        elif name == 'session_loss':
+            if d.generator is not None:
+                d.classes.add('session-loss-mid-generator')
+                d.nontrivial = True
+            d.op_session_loss()
         elif name == 'begin':
             d.begin()
         elif name == 'step':
